@@ -318,6 +318,63 @@ def rule_fresh_filecontext(ctx, rep):
     rep.check("R-FRESH-FILECONTEXT", fcq, fc.loc(), any("dataclass" in d for d in deco), "dataclass", "FileContext is no longer a dataclass (field defaults would be class attributes shared by all instances)")
 
 
+def rule_no_shared_mutable_default(ctx, rep, rule_id="R-NO-SHARED-MUTABLE-DEFAULT", module_prefixes=("codemodder.", "core_codemods.")):
+    """Shared by C09 / C11 / C19: per-file / per-codemod objects must not accumulate into a container that is a *class* attribute."""
+    rep.rule(
+        rule_id,
+        "no class declares a mutable container as a class-level default (`x: list = []`, `{}`, `set()`) that its methods then fill "
+        "through `self.x` (append / extend / add / update / item assignment) without every constructor path rebinding `self.x` first: "
+        "such a container is shared by all instances, so what one file or codemod recorded shows up in the next one's result",
+        min_instances=1,
+    )
+    n = 0
+    for c in ctx.prog.classes.values():
+        if not c.module.name.startswith(module_prefixes):
+            continue
+        if any("dataclass" in unparse(d) for d in c.node.decorator_list):
+            continue  # dataclass defaults are per-instance or rejected by dataclasses itself when mutable
+        if any(b.split(".")[-1] in ("BaseModel",) for b in ctx.prog.external_bases(c.qname)) or any(m.endswith(("BaseModel",)) for m in ctx.prog.mro(c.qname)):
+            continue  # pydantic copies defaults per instance
+        for st in c.node.body:
+            tgt = val = None
+            if isinstance(st, ast.AnnAssign) and st.value is not None and isinstance(st.target, ast.Name):
+                tgt, val = st.target.id, st.value
+            elif isinstance(st, ast.Assign) and len(st.targets) == 1 and isinstance(st.targets[0], ast.Name):
+                tgt, val = st.targets[0].id, st.value
+            if tgt is None:
+                continue
+            mutable = isinstance(val, (ast.List, ast.Dict, ast.Set)) or (isinstance(val, ast.Call) and call_name(val) in ("list", "dict", "set", "defaultdict", "OrderedDict", "deque"))
+            if not mutable:
+                continue
+            # filled through self.<tgt> anywhere in the hierarchy below?
+            fillers = []
+            rebinding_inits = []
+            for cq in [c.qname] + sorted(ctx.prog.all_subclasses(c.qname)):
+                for m in ctx.prog.classes[cq].methods.values():
+                    for x in walk_no_nested(m.node):
+                        if isinstance(x, ast.Call) and isinstance(x.func, ast.Attribute) and x.func.attr in ("append", "extend", "add", "update", "insert", "setdefault", "appendleft") \
+                                and isinstance(x.func.value, ast.Attribute) and x.func.value.attr == tgt and isinstance(x.func.value.value, ast.Name) and x.func.value.value.id == "self":
+                            fillers.append((m, x))
+                        if isinstance(x, (ast.Assign, ast.AugAssign)):
+                            for t in (x.targets if isinstance(x, ast.Assign) else [x.target]):
+                                if isinstance(t, ast.Subscript) and isinstance(t.value, ast.Attribute) and t.value.attr == tgt and isinstance(t.value.value, ast.Name) and t.value.value.id == "self":
+                                    fillers.append((m, x))
+                                if isinstance(t, ast.Attribute) and t.attr == tgt and isinstance(t.value, ast.Name) and t.value.id == "self" and m.name == "__init__" and isinstance(x, ast.Assign):
+                                    rebinding_inits.append(m)
+                        if isinstance(x, ast.AnnAssign) and isinstance(x.target, ast.Attribute) and x.target.attr == tgt and isinstance(x.target.value, ast.Name) and x.target.value.id == "self" and m.name == "__init__" and x.value is not None:
+                            rebinding_inits.append(m)
+            if not fillers:
+                continue
+            n += 1
+            init = ctx.prog.lookup_method(c.qname, "__init__")
+            ok = init is not None and any(r_.qname == init.qname for r_ in rebinding_inits)
+            rep.check(rule_id, c.qname, c.loc(st), ok, f"{tgt}",
+                      f"`{c.name}.{tgt}` is a class-level {type(val).__name__.lower()} filled through `self.{tgt}` in {fillers[0][0].name}() and not rebound in __init__: "
+                      "all instances share it (entries of an earlier file / codemod appear in later results)")
+    if n == 0:
+        rep.instance(rule_id, "codebase", "src/", True, detail="no class-level mutable container is filled through self")
+
+
 def check(ctx, rep):
     rep.explanation = (
         "Cross-talk between codemods of one run can only travel through shared state: the execution context's containers, objects "
@@ -338,6 +395,7 @@ def check(ctx, rep):
     from .c17 import rule_exec_order
 
     rule_exec_order(ctx, rep)
+    rule_no_shared_mutable_default(ctx, rep)
     rep.not_covered += [
         "semgrep_prefilter_results is computed once before any rewrite and gates each later detector run: whether one codemod's "
         "rewrite can enable another's rule needs semgrep semantics (declined; no enabling pair could be constructed)",
